@@ -84,3 +84,39 @@ package keeper
 //@ requires limit <= MaxInt64
 //@ ensures len(result) <= limit
 //@ loop 0: invariant 0 <= i && i <= limit && len(signalTotalPowers) == limit && cap(signalTotalPowers) >= limit
+
+// ---- C15 / C20: price submission -----------------------------------------------------------------------------
+//@ spec curFeeds(s Store) types.CurrentFeeds = has(s, types.CurrentFeedsStoreKey) ? dec(types.CurrentFeeds, s[types.CurrentFeedsStoreKey]) : zero(types.CurrentFeeds)
+//@ spec feedsParams(s Store) types.Params = has(s, types.ParamsKey) ? dec(types.Params, s[types.ParamsKey]) : zero(types.Params)
+//@ spec vplAt(s Store, v Addr) types.ValidatorPriceList = dec(types.ValidatorPriceList, s[types.ValidatorPriceListStoreKey(v)])
+//@ spec inFeeds(fs []types.Feed, id Str) Bool = exists f :: 0 <= f && f < len(fs) && fs[f].SignalID == id
+//@ spec inPrev(ps []types.ValidatorPrice, e types.ValidatorPrice) Bool = exists p :: 0 <= p && p < len(ps) && ps[p] == e
+
+// Accepted only from a bonded, oracle-active validator, with a message timestamp within the allowed
+// discrepancy of the block time, and only for signals that are current feeds. Every price taken from the
+// message is stored with the BLOCK time and height (the message's own timestamp is never stored), every other
+// stored entry is an empty slot or one of the validator's previous prices; a rejection changes nothing.
+//@ func (k msgServer) SubmitSignalPrices
+//@ modifies Store_feeds
+//@ requires forall a, b :: 0 <= a && a < b && b < len(curFeeds(Store_feeds).Feeds) ==> curFeeds(Store_feeds).Feeds[a].SignalID != curFeeds(Store_feeds).Feeds[b].SignalID
+//@ ensures err != nil ==> Store_feeds == old(Store_feeds)
+//@ ensures err == nil ==> bech32ok(msg.Validator) && types.oracleStatus(Other, bech32addr(msg.Validator)).IsActive
+//@ ensures err == nil ==> (let d = wrap64(msg.Timestamp - sdkctx(goCtx).BlockTime().Unix()) in (d == MinInt64 ? d : abs(d)) <= old(feedsParams(Store_feeds)).AllowableBlockTimeDiscrepancy)
+//@ ensures err == nil ==> (forall i :: 0 <= i && i < len(msg.SignalPrices) ==> inFeeds(old(curFeeds(Store_feeds)).Feeds, msg.SignalPrices[i].SignalID))
+//@ ensures err == nil ==> (forall q Bz :: q != types.ValidatorPriceListStoreKey(bech32addr(msg.Validator)) ==> Store_feeds[q] == old(Store_feeds)[q])
+//@ ensures err == nil ==> (forall j :: 0 <= j && j < len(vplAt(Store_feeds, bech32addr(msg.Validator)).ValidatorPrices) ==>
+//@     (let e = vplAt(Store_feeds, bech32addr(msg.Validator)).ValidatorPrices[j] in
+//@        e == zero(types.ValidatorPrice)
+//@        || (old(has(Store_feeds, types.ValidatorPriceListStoreKey(bech32addr(msg.Validator)))) && inPrev(old(vplAt(Store_feeds, bech32addr(msg.Validator))).ValidatorPrices, e))
+//@        || (e.Timestamp == sdkctx(goCtx).BlockTime().Unix() && e.BlockHeight == sdkctx(goCtx).BlockHeight())))
+//@ loop 0: invariant forall a, b :: 0 <= a && a < b && b < len(currentFeeds.Feeds) ==> currentFeeds.Feeds[a].SignalID != currentFeeds.Feeds[b].SignalID
+//@ loop 0: invariant forall j :: 0 <= j && j < #i ==> has(currentFeedsMap, currentFeeds.Feeds[j].SignalID)
+//@ loop 0: invariant len(currentFeedsMap) == #i
+//@ loop 0: invariant forall key Str :: has(currentFeedsMap, key) ==> (0 <= currentFeedsMap[key] && currentFeedsMap[key] < #i && currentFeeds.Feeds[currentFeedsMap[key]].SignalID == key)
+//@ loop 1: invariant len(newValidatorPrices) == len(currentFeeds.Feeds)
+//@ loop 1: invariant forall j :: 0 <= j && j < len(newValidatorPrices) ==> (newValidatorPrices[j] == zero(types.ValidatorPrice) || inPrev(prevValPrices.ValidatorPrices, newValidatorPrices[j]))
+//@ loop 2: invariant len(newValidatorPrices) == len(currentFeeds.Feeds)
+//@ loop 2: invariant forall i :: 0 <= i && i < #i ==> inFeeds(currentFeeds.Feeds, msg.SignalPrices[i].SignalID)
+//@ loop 2: invariant forall j :: 0 <= j && j < len(newValidatorPrices) ==> (newValidatorPrices[j] == zero(types.ValidatorPrice)
+//@        || (err == nil && inPrev(prevValPrices.ValidatorPrices, newValidatorPrices[j]))
+//@        || (newValidatorPrices[j].Timestamp == blockTime && newValidatorPrices[j].BlockHeight == blockHeight))
